@@ -41,3 +41,94 @@ Example c10_nonvacuous :
   let s := run_events (cfg_redis true true true) (init_state 3600) [ELogin 1 2; ETick (100 * second)] in
   exists e, store_get (m_w s) 1 = Some e /\ e_exp e = Some (7200 * second).
 Proof. vm_compute. eexists. split; reflexivity. Qed.
+
+(** * Lineage form: the expiry of an entry is the creation of the session it holds plus the maximum lifetime *)
+From WW Require Import Proofs.MachineLifeP Proofs.MachineTtlP.
+
+(** Setting: the shared (Redis) store with the single conditional write (the current code); ANY event list:
+    every interleaving of any number of request threads, every fault, cancellation, crash (a thread that is
+    never run again), ticks, provider changes.
+    Hypothesis (proved form: the history-level one): no session id is logged in twice in the history,
+    [NoDup (login_sids es)] with [login_sids es] the ids of the [ELogin] events of [es] in order.
+    Conclusion, for every entry of the store in the final state: its expiry is exactly the end of the session
+    record it holds, and that is the record's creation time plus the maximum lifetime. *)
+Theorem c10_expiry_is_creation_plus_max_lifetime : forall c tau es,
+  c_redis c = true -> c_upd_atomic c = true -> NoDup (login_sids es) ->
+  forall k e, alookup k (w_store (m_w (run_events c (init_state tau) es))) = Some e ->
+    e_exp e = Some (sd_ends (e_data e)) /\ sd_ends (e_data e) = sd_created (e_data e) + c_maxlife c.
+Proof. exact expiry_is_session_end. Qed.
+Print Assumptions c10_expiry_is_creation_plus_max_lifetime.
+
+(** In the property's words: the expiry is never later than creation + maximum lifetime (it is equal to it). *)
+Theorem c10_expiry_never_later_than_creation_plus_max_lifetime : forall c tau es,
+  c_redis c = true -> c_upd_atomic c = true -> NoDup (login_sids es) ->
+  forall k e, alookup k (w_store (m_w (run_events c (init_state tau) es))) = Some e ->
+    exists x, e_exp e = Some x /\ x = sd_created (e_data e) + c_maxlife c /\ x <= sd_created (e_data e) + c_maxlife c.
+Proof. exact expiry_never_later. Qed.
+Print Assumptions c10_expiry_never_later_than_creation_plus_max_lifetime.
+
+(** What a reader of the store sees at time now: a live entry has the positive remaining time-to-live
+    (creation + maximum lifetime) - now. *)
+Theorem c10_remaining_ttl : forall c tau es,
+  c_redis c = true -> c_upd_atomic c = true -> NoDup (login_sids es) ->
+  let w := m_w (run_events c (init_state tau) es) in
+  forall k e, store_get w k = Some e ->
+    exists x, e_exp e = Some x /\
+              x - w_clock w = sd_created (e_data e) + c_maxlife c - w_clock w /\
+              0 < x - w_clock w.
+Proof. exact live_entry_remaining_ttl. Qed.
+Print Assumptions c10_remaining_ttl.
+
+(** The same conclusion under the weaker, state-level hypothesis [login_quiet]: no successful login happens under
+    a session id while a request thread whose cookie names that id holds a record it may still write (it is
+    between its re-read under the lock and its store update). [NoDup (login_sids es)] implies it. *)
+Theorem c10_expiry_is_creation_plus_max_lifetime_quiet : forall c tau es,
+  c_redis c = true -> c_upd_atomic c = true -> login_quiet c (init_state tau) es ->
+  forall k e, alookup k (w_store (m_w (run_events c (init_state tau) es))) = Some e ->
+    e_exp e = Some (sd_ends (e_data e)) /\ sd_ends (e_data e) = sd_created (e_data e) + c_maxlife c.
+Proof. exact expiry_is_session_end_quiet. Qed.
+Print Assumptions c10_expiry_is_creation_plus_max_lifetime_quiet.
+
+Theorem c10_no_relogin_implies_quiet : forall c tau es,
+  c_upd_atomic c = true -> NoDup (login_sids es) -> login_quiet c (init_state tau) es.
+Proof. exact nodup_login_quiet. Qed.
+Print Assumptions c10_no_relogin_implies_quiet.
+
+(** The invariant behind it (store entries AND the records held by threads), from any state satisfying it. *)
+Theorem c10_lineage_invariant : forall c s0 es,
+  c_redis c = true -> c_upd_atomic c = true -> lin_inv s0 -> login_quiet c s0 es ->
+  lin_inv (run_events c s0 es).
+Proof. exact lin_inv_run. Qed.
+Print Assumptions c10_lineage_invariant.
+
+(** The hypothesis cannot be dropped (known finding c10-stale-refresh-overwrites-relogin, current code): on
+    [relogin_schedule] session id 1 is logged in twice, the in-flight refresh of the logged-out first session
+    overwrites the re-login's entry (SET XX KEEPTTL), and the live entry then expires 3601 s - the re-login
+    delay - AFTER the creation + maximum lifetime of the session record it holds. *)
+Theorem c10_relogin_expiry_refuted :
+  let c := cfg_redis true true true in
+  let s := run_events c (init_state 3600) relogin_schedule in
+  c_redis c = true /\ c_upd_atomic c = true /\ login_sids relogin_schedule = [1; 1]%N /\
+  ~ NoDup (login_sids relogin_schedule) /\ ~ login_quiet c (init_state 3600) relogin_schedule /\
+  exists e, store_get (m_w s) 1 = Some e /\
+            sd_ends (e_data e) = sd_created (e_data e) + c_maxlife c /\
+            e_exp e = Some (sd_created (e_data e) + c_maxlife c + 3601 * second).
+Proof. exact relogin_expiry_refuted. Qed.
+Print Assumptions c10_relogin_expiry_refuted.
+
+(** Non-vacuity: three sessions created at 0 s, 10 s, 20 s; the first is refreshed (one accepted grant, the entry
+    now holds refresh token 4), the third is logged out; no id is logged in twice; the two remaining entries are
+    live and expire at creation + 7200 s. *)
+Example c10_lineage_nonvacuous :
+  let c := cfg_redis true true true in
+  let s := run_events c (init_state 3600) lineage_schedule in
+  c_redis c = true /\ c_upd_atomic c = true /\ NoDup (login_sids lineage_schedule) /\
+  w_idp_log (m_w s) = [IdpGrant 1 true] /\
+  thread_done s 1 (OForward (Some 4%N) None) /\ thread_done s 2 (OStatus 204) /\
+  (exists e, store_get (m_w s) 1 = Some e /\ sd_rt (e_data e) = 4%N /\ sd_created (e_data e) = 0 /\
+             e_exp e = Some (7200 * second)) /\
+  (exists e, store_get (m_w s) 2 = Some e /\ sd_created (e_data e) = 10 * second /\
+             e_exp e = Some (7210 * second)) /\
+  store_get (m_w s) 3 = None.
+Proof. exact lineage_nonvacuous. Qed.
+Print Assumptions c10_lineage_nonvacuous.
